@@ -14,6 +14,8 @@ func init() {
 func suiteC13Bind(cfg Config, res *Result) {
 	defer c13Defaults(res)
 	defer c13UnderSwitch(res)
+	defer c13ContextsOutliveCalls(res)
+	defer recursiveMacroNodes(res, "binding", "c13-recursive-nodes", "")
 	defer c13SafeAnywhere(res)
 	res.Rule = "macro signatures with 0..4 parameters, any subset with default expressions (literals, names of the defining scope, names that are also parameters of the macro while the caller binds them too) x call sites with 0..5 arguments of all scalar kinds, lists and nil x definition local / imported / imported under an alias; oracle: a reference binding (i-th argument to i-th parameter, omitted -> default or empty, too many -> execution error), literal markup in the body comes out unescaped, and imported = local; also compared with the Lean model; non-trivial = call with omitted or defaulted parameters; distinct by (signature, call)"
 	n := 3000
